@@ -6,3 +6,4 @@ import Yae.Props.GenTie.Vm
 import Yae.Props.GenTie.Parser
 import Yae.Props.GenTie.Sql
 import Yae.Props.GenTie.Conv
+import Yae.Props.GenTie.Lexer
